@@ -403,6 +403,9 @@ def model_call(spec: dict[str, Any], call: dict[str, Any]) -> dict[str, Any]:
         if a["op"] == "nothing":
             obs["error"] = {"framework": "no_data_batch"}
             break
+        if a["op"] == "echo_input":
+            obs["batches"].append(_mbatch(m["out_cols"], {c["name"]: list(inp[c["name"]]) for c in m["out_cols"]}, None))
+            continue
         if a["op"] == "echo_len":
             n = inp if isinstance(inp, int) else (len(next(iter(inp.values()))) if inp else 0)
             cols = m["out_cols"]
